@@ -116,9 +116,13 @@ class Index:
         # compile the matches to the expected format for the index,
         # to make substring checks quicker
         compiled_matches = []
+        # a match key is followed by its separator, so that the entries of a
+        # value that merely starts with the requested one are not taken for it
+        separator = b"\x00" if self.has_time else b""
+        entry_tail = 37 if self.has_time else 0
         for match in matches:
             try:
-                compiled_matches.append(self.to_key(match))
+                compiled_matches.append(self.to_key(match) + separator)
             except ValueError:
                 pass
         if since is not None:
@@ -129,7 +133,7 @@ class Index:
             # the keys carry no time; the matcher checks the time range
             since = until = None
         if until is not None:
-            add_time = b"\x00%s\x00" % until
+            add_time = b"%s\x00" % until
         else:
             add_time = b""
 
@@ -151,7 +155,7 @@ class Index:
 
             stop = compiled_matches[-1]
             if since:
-                stop += b"\x00" + since
+                stop += since
             match, skipped = next_match()
         else:
             match = None
@@ -172,7 +176,13 @@ class Index:
                 matchlen = len(match)
                 while match:
                     # breakpoint()
-                    ts = key[-37:-33]
+                    if key[:matchlen] == match and len(key) != matchlen + entry_tail:
+                        # entry of a longer value that contains the separator
+                        if not prev():
+                            break
+                        key = bytes(get_key())
+                        continue
+                    ts = key[matchlen : matchlen + 4]
                     # print(key, match, ts, since, until)
 
                     if (
